@@ -891,10 +891,12 @@ int vorbis_synthesis_blockin(vorbis_dsp_state *v,vorbis_block *vb){
 
           v->pcm_current-=extra>>hs;
         }else{
-          /* trim the beginning */
-          v->pcm_returned+=extra>>hs;
-          if(v->pcm_returned>v->pcm_current)
+          /* trim the beginning; compare before adding, extra is a long and
+             pcm_returned an int */
+          if((extra>>hs)>v->pcm_current-v->pcm_returned)
             v->pcm_returned=v->pcm_current;
+          else
+            v->pcm_returned+=extra>>hs;
         }
 
       }
